@@ -170,6 +170,8 @@ def _run_blk_history(ia, o1, z1, vals, sched, ops, nb, with_b2):
         bj = gtirb.ByteInterval(address=0x100, size=10, uuid=UUID(int=40))
         ballast = [gtirb.DataBlock(offset=TOP, size=0, byte_interval=bi, uuid=UUID(int=100 + i)) for i in range(nb)]
         b2 = gtirb.DataBlock(offset=3, size=2, byte_interval=bi, uuid=UUID(int=6)) if with_b2 else None
+        extras = [gtirb.DataBlock(offset=5, size=2, uuid=UUID(int=200 + i)) for i in range(3)]
+    added = []
     bi.address = ia
     b1 = gtirb.CodeBlock(offset=o1, size=z1, byte_interval=bi, uuid=UUID(int=5))
     # model: b1 = [interval index or None, offset, size]; interval addresses
@@ -202,16 +204,20 @@ def _run_blk_history(ia, o1, z1, vals, sched, ops, nb, with_b2):
         elif op == "N":
             bi.address = None
             m_addr[0] = None
+        elif op == "u":
+            # the collection grows in one bulk call (three ordinary blocks, all at offset 5, size 2: one case split for the three)
+            bi.blocks.update(extras)
+            added[:] = extras
         else:
             raise AssertionError(op)
     if (sched >> len(ops)) & 1:
         _touch(bi)
         _touch(bj)
-    return (bi, bj, b1, b2, ballast), (m_b1, m_addr)
+    return (bi, bj, b1, b2, ballast, list(added)), (m_b1, m_addr)
 
 
 def _final_answers(objs, q, with_j):
-    bi, bj, b1, b2, ballast = objs
+    bi, bj, b1, b2, ballast, added = objs
     out = [list(bi.byte_blocks_on_offset(q)), list(bi.byte_blocks_at_offset(q)),
            list(bi.byte_blocks_on(q)), list(bi.byte_blocks_at(q))]
     if with_j:
@@ -221,7 +227,7 @@ def _final_answers(objs, q, with_j):
 
 
 def _expected(objs, model, lo, hi, st, with_j):
-    bi, bj, b1, b2, ballast = objs
+    bi, bj, b1, b2, ballast, added = objs
     m_b1, m_addr = model
     exp = []
     for idx in ((0, 1) if with_j else (0,)):
@@ -230,6 +236,9 @@ def _expected(objs, model, lo, hi, st, with_j):
             members.append((b1, m_b1[1], m_b1[2]))
         if idx == 0 and b2 is not None:
             members.append((b2, 3, 2))
+        if idx == 0:
+            for k, x in enumerate(added):
+                members.append((x, 5, 2))
         # ballast: zero-sized at TOP, all query bounds < TOP: never 'on', never 'at'
         exp.append([b for (b, o, z) in members if _on(o, z, lo, hi)])
         exp.append([b for (b, o, z) in members if _at(o, lo, hi, st)])
